@@ -10,6 +10,7 @@ LEVEL = "proof"
 TRUSTED_EXTRA = ["translator verif/gen_bodies.py (Python ast -> PyIR terms, purely syntactic)", "PyIR interpreter (lean/MafModel/MafModel/PyIR/Interp.lean), validated on every run against the real SortOrderKey.compare (body.compare)"]
 ASSUMPTIONS = ["well-formed coordinates: chromosome a name (text or integer-typed), start/end integers or integer texts, barcodes texts; anything may be missing (None)"]
 OPS = ["lt", "le", "gt", "ge", "eq", "ne"]
+BIG = [2 ** 53, 2 ** 53 + 1, 2 ** 63 - 2, 2 ** 63 - 1, 2 ** 63, 2 ** 64 + 1]
 
 
 def expected_cmp(a, b, order, contigs):
@@ -51,6 +52,10 @@ def make_objs(rng, n):
         kind = rng.choice(["typed", "typed", "untyped", "loc"])
         chrom = rng.choice(chroms)
         start = rng.choice([1, 2, 9, 10, 11, 100, 1000])
+        if rng.random() < 0.12:
+            # positions are numbers of any size (Python integers are unbounded): beyond 2**53 (not exact as a double) and
+            # around the machine word
+            start = rng.choice(BIG)
         end = start + rng.choice([0, 0, 1, 5, 90])
         tumor = rng.choice(["T1", "T2", "TA", "Zz-9"])
         # (names on both sides of the text 'None' and of the empty text: a missing barcode is last, not a name)
@@ -58,7 +63,9 @@ def make_objs(rng, n):
         if kind == "typed":
             objs.append(("typed", SC.typed_record(rng, tumor, normal, chrom, start, end)))
         elif kind == "untyped":
-            objs.append(("untyped", SC.untyped_record(tumor, normal or "", chrom, str(start), str(end))))
+            # the text of a position is what int() reads: an explicit sign is part of the number
+            st = rng.choice(["%d", "%d", "%d", "+%d", "-%d"]) % start
+            objs.append(("untyped", SC.untyped_record(tumor, normal or "", chrom, st, str(end) if not st.startswith("-") else st)))
         else:
             c = rng.choice([chrom, chrom, None, int(chrom) if chrom.isdigit() else chrom])
             s = rng.choice([start, start, None])
@@ -72,6 +79,11 @@ def make_objs(rng, n):
         objs.append(("loc", SC.Loc(chrom, start, start)))
         objs.append(("loc", SC.Loc(chrom, start, start + rng.choice([1, 5, 90]))))
         objs.append(("loc", SC.Loc(chrom, None, None)))
+        big = rng.choice(BIG)
+        objs.append(("loc", SC.Loc(chrom, start, big)))        # a huge end against a missing end: missing is still last
+        objs.append(("loc", SC.Loc(chrom, big, big + 1)))
+        objs.append(("untyped", SC.untyped_record("T1", "N1", chrom, str(big), str(big + 1))))
+        objs.append(("untyped", SC.untyped_record("T1", "N1", chrom, str(big + 1), str(big + 1))))
         tumor = rng.choice(["T1", "TA"])
         for normal in (None, "N1", "TCGA-11", "b-12"):
             objs.append(("typed", SC.typed_record(rng, tumor, normal, chrom, start, start + 1)))
